@@ -20,6 +20,9 @@ type DocOpts struct {
 	MaxAttrs int
 	// PElem is the share (out of 10) of element children; the rest is split 2:1 between text and comment.
 	PElem int
+	// WideFan, when > 0, is the fan-out of the two levels below the document
+	// element (sibling indexes of two digits).
+	WideFan int
 	// NS, when non-nil, decorates elements/attributes with prefixes and namespace URIs.
 	NS *NSOpts
 }
@@ -52,6 +55,9 @@ func Doc(t *rapid.T, o DocOpts) *xdoc.Doc {
 		n := 1
 		if p.Kind != xpath.RootNode {
 			n = rapid.IntRange(0, o.MaxFan).Draw(t, "fan")
+			if o.WideFan > 0 && d <= 3 {
+				n = rapid.IntRange(0, o.WideFan).Draw(t, "widefan")
+			}
 		}
 		for i := 0; i < n; i++ {
 			var k *xdoc.Node
@@ -76,6 +82,10 @@ func Doc(t *rapid.T, o DocOpts) *xdoc.Doc {
 				used := map[string]bool{}
 				for j := 0; j < na; j++ {
 					a := &xdoc.Node{Kind: xpath.AttributeNode, Local: o.AtNames[(j)%len(o.AtNames)], Value: rapid.SampledFrom(o.AtVals).Draw(t, "aval")}
+					if o.NS != nil {
+						// with prefixes in play the same local name may occur twice (x and p:x)
+						a.Local = rapid.SampledFrom(o.AtNames).Draw(t, "alocal")
+					}
 					if o.NS != nil {
 						a.Prefix = rapid.SampledFrom(o.NS.Prefixes).Draw(t, "apfx")
 						if a.Prefix != "" {
@@ -108,7 +118,7 @@ func Doc(t *rapid.T, o DocOpts) *xdoc.Doc {
 			}
 			k.Parent = p
 			p.Kids = append(p.Kids, k)
-			if k.Kind == xpath.ElementNode && d < o.MaxDepth {
+			if k.Kind == xpath.ElementNode && d < o.MaxDepth && !(o.WideFan > 0 && d >= 3) {
 				build(k, d+1)
 			}
 		}
